@@ -103,7 +103,7 @@ def run(rep: Report) -> None:
                 rep.check(coef_ok, "speed-monotone-in-Veq", f"{tag} [{ss.config}]", ss.where, dd,
                           key=f"mono|{impl}|{ss.config}")
         # ramp laws
-        nz = PC.prim_normalizer(True)
+        nz = PC.prim_normalizer(False)  # equalities are decided without sign facts (w may be negative)
         env = E.Env({})
         rin = _prim(prog, impl, "origins.get_ramp_flow", "in")
         rout = _prim(prog, impl, "origins.get_ramp_flow", "out")
